@@ -113,6 +113,7 @@ c('cycle_to_yo', U, requires="cycle < 146097",
   ensures="r.0 < 400, 1 <= r.1 <= year_len(r.0 as int), cyc(r.0 as int, r.1 as int) == cycle as int")
 c('NaiveDate::from_num_days_from_ce_opt', U, ensures=date_move("days as int"))
 c('NaiveDate::num_days_from_ce', U, requires="dwf(*self)", ensures="r as int == dn(*self)")
+c('NaiveDate::Datelike__num_days_from_ce', U, requires="dwf(*self)", ensures="r as int == dn(*self)")
 c('NaiveDate::add_days', U, requires="dwf(self)", ensures=date_move("dn(self) + days as int"))
 c('NaiveDate::checked_add_days', U, requires="dwf(self)", ensures=date_move("dn(self) + days.0 as int"))
 c('NaiveDate::checked_sub_days', U, requires="dwf(self)", ensures=date_move("dn(self) - days.0 as int"))
